@@ -74,7 +74,12 @@ def accessors : List (String × UInt8 × (GOpts → Int → String)) :=
     ("RelayAgentInfo", Code.relayAgentInfo, fun o _ => showRelay (Acc.relayAgentInfo o)),
     ("UserClass", Code.userClass, fun o _ => showList hex (Acc.userClass o)),
     ("VIVC", Code.vivc, fun o _ => showList showVIVC (Acc.vivc o)),
-    ("ClientArch", Code.clientArch, fun o _ => showList toString (Acc.clientArch o)) ]
+    ("ClientArch", Code.clientArch, fun o _ => showList toString (Acc.clientArch o)),
+    ("DomainSearch", Code.domainSearch, fun o _ =>
+        match Acc.domainSearch o with
+        | .ok none => "nil"
+        | .ok (some l) => showList hex (some l.labels)
+        | _ => "panic") ]
 
 def findAcc (name : String) : Option (UInt8 × (GOpts → Int → String)) :=
   (accessors.find? (fun e => e.1 == name)).map (·.2)
@@ -159,7 +164,169 @@ def constructors : List (String × String × (String → Option (Res GoBytes))) 
         (parseListOf parseSub s).map (fun l => Res.ok (relayToBytes (Opts.ofList l)))),
     ("OptVIVC", "VIVC", fun s => (parseListOf parseVIVC s).map (fun l => Res.ok (vivcToBytes l))),
     ("OptClientArch", "ClientArch", fun s =>
-        (parseListOf String.toNat? s).map (fun l => Res.ok (archsToBytes l))) ]
+        (parseListOf String.toNat? s).map (fun l => Res.ok (archsToBytes l))),
+    ("OptDomainSearch", "DomainSearch", fun s =>
+        (parseListOf unhex s).map (fun ns => labelsGoBytes { original := none, labels := ns })) ]
+
+/-! ### set/get histories (`v4hist`)
+
+    v4hist <Constructor> <present> <valuehex> <def> <step>…
+
+A packet holding the raw value (as in `v4acc`) and a register `x` for the
+typed value a caller works on.  Steps:
+  `g`        x = accessor()                 (nil label set: `NewLabels()`)
+  `s:i:e`    x[i] = e in place (no-op when i is out of range)
+  `a:e`      x = append(x, e)        `d:i`  delete element i
+  `r:arg`    x = a fresh value (constructor argument syntax)
+  `R`        label sets: Labels = a fresh copy of the names parsed at `g`
+  `u`        UpdateOption(Constructor(x))
+  `w`        packet = FromBytes(packet.ToBytes())
+  `o`        output the accessor's result
+Output: `ok <result> | <result> …`, or `panic`.
+Outside label sets the register is a list of element tokens in constructor
+argument syntax (addresses and masks: one token per octet), so that the
+edits are the generic list edits; scalars are a one-token list. -/
+
+/-- constructor ↦ kind of its typed value (as in the Go harness) -/
+def histKind (ctor : String) : String :=
+  match ctor with
+  | "OptBroadcastAddress" | "OptRequestedIPAddress" | "OptServerIdentifier" => "ip"
+  | "OptRouter" | "OptNTPServers" | "OptNetBIOSNameServers" | "OptDNS" => "ips"
+  | "OptIPAddressLeaseTime" | "OptRenewTimeValue" | "OptRebindingTimeValue" | "OptIPv6OnlyPreferred" => "dur"
+  | "OptUserClass" => "ucstr"
+  | "OptRFC3004UserClass" => "strings"
+  | "OptMaxMessageSize" => "u16"
+  | "OptAutoConfigure" | "OptMessageType" => "u8"
+  | "OptSubnetMask" => "mask"
+  | "OptClasslessStaticRoute" => "routes"
+  | "OptParameterRequestList" => "codes"
+  | "OptRelayAgentInfo" => "relay"
+  | "OptVIVC" => "vivc"
+  | "OptClientArch" => "archs"
+  | "OptDomainSearch" => "labels"
+  | _ => "str"
+
+def pairUp : List Char → List String
+  | a :: b :: rest => String.ofList [a, b] :: pairUp rest
+  | _ => []
+
+def firstWord (s : String) : String := ((s.splitOn " ").head?).getD s
+
+/-- `dest/width>router` → `width:dest:router` -/
+def routeTok (s : String) : String :=
+  match s.splitOn ">" with
+  | [dw, r] =>
+    match dw.splitOn "/" with
+    | [d, w] => s!"{w}:{d}:{r}"
+    | _ => s
+  | _ => s
+
+def splitNonEmpty (s : String) : List String := if s.isEmpty then [] else s.splitOn ","
+
+/-- tokens of a rendered accessor result -/
+def toksOfResult (kind res : String) : List String :=
+  match kind with
+  | "ip" | "mask" => if res == "nil" || res == "-" then [] else pairUp res.toList
+  | "dur" | "u8" => [firstWord res]
+  | "u16" => [if res == "err" then "0" else res]
+  | "str" | "strz" => [res]
+  | "ucstr" => if res == "nil" || res == "[]" then ["-"] else [((res.splitOn ",").head?).getD "-"]
+  | "routes" => if res == "nil" || res == "[]" then [] else (res.splitOn ",").map routeTok
+  | "relay" =>
+    if res == "nil" then [] else splitNonEmpty ((res.drop 1).dropEnd 1).toString
+  | _ => if res == "nil" || res == "[]" then [] else res.splitOn ","
+
+/-- tokens of a constructor argument -/
+def toksOfArg (kind arg : String) : List String :=
+  match kind with
+  | "ip" | "mask" => if arg == "nil" || arg == "-" then [] else pairUp arg.toList
+  | "dur" | "u8" | "u16" | "str" | "strz" | "ucstr" => [arg]
+  | _ => if arg == "[]" then [] else arg.splitOn ","
+
+/-- constructor argument of a token list -/
+def argOfToks (kind : String) (ts : List String) : String :=
+  match kind with
+  | "ip" | "mask" => if ts.isEmpty then "nil" else String.join ts
+  | "dur" | "u8" | "u16" => (ts.head?).getD "0"
+  | "str" | "strz" | "ucstr" => (ts.head?).getD "-"
+  | _ => if ts.isEmpty then "[]" else ",".intercalate ts
+
+/-- relay sub-options live in a map: after every edit the token list is the
+map's content again (later tokens win, ascending codes) -/
+def canonRelay (ts : List String) : List String :=
+  match ts.mapM parseSub with
+  | none => ts
+  | some kvs => (Opts.ofList kvs).toList.map (fun (k, v) => s!"{k.toNat}:{hex v}")
+
+def canonToks (kind : String) (ts : List String) : List String :=
+  if kind == "relay" then canonRelay ts else ts
+
+inductive HReg where
+  | toks (ts : List String)
+  | labs (l : Label.Labels) (parsed : List Bytes)
+
+structure HState where
+  o : GOpts
+  reg : HReg
+  outs : List String
+  panicked : Bool := false
+
+def histStep (kind : String) (code : UInt8) (render : GOpts → Int → String)
+    (toBytes : String → Option (Res GoBytes)) (d : Int) (st : HState) (step : String) : Option HState :=
+  match step.splitOn ":" with
+  | ["g"] =>
+    if kind == "labels" then
+      match Acc.domainSearch st.o with
+      | .ok (some l) => some { st with reg := .labs l l.labels }
+      | .ok none => some { st with reg := .labs Label.Labels.new [] }
+      | _ => some { st with panicked := true }
+    else some { st with reg := .toks (toksOfResult kind (render st.o d)) }
+  | ["u"] =>
+    match st.reg with
+    | .labs l _ =>
+      match labelsGoBytes l with
+      | .ok raw => some { st with o := st.o.update code raw }
+      | _ => some { st with panicked := true }
+    | .toks ts => do
+      let r ← toBytes (argOfToks kind ts)
+      match r with
+      | .ok raw => pure { st with o := st.o.update code raw }
+      | _ => pure { st with panicked := true }
+  | ["w"] => some { st with o := st.o.wire }
+  | ["o"] => some { st with outs := st.outs ++ [render st.o d] }
+  | ["R"] =>
+    match st.reg with
+    | .labs l p => some { st with reg := .labs { l with labels := p } p }
+    | r => some { st with reg := r }
+  | "s" :: i :: erest => do
+    let e := ":".intercalate erest
+    let i ← i.toNat?
+    match st.reg with
+    | .labs l p => do
+      let n ← unhex e
+      pure { st with reg := .labs { l with labels := if i < l.labels.length then l.labels.set i n else l.labels } p }
+    | .toks ts => pure { st with reg := .toks (canonToks kind (if i < ts.length then ts.set i e else ts)) }
+  | "a" :: erest =>
+    let e := ":".intercalate erest
+    match st.reg with
+    | .labs l p => do
+      let n ← unhex e
+      pure { st with reg := .labs { l with labels := l.labels ++ [n] } p }
+    | .toks ts => some { st with reg := .toks (canonToks kind (ts ++ [e])) }
+  | ["d", i] => do
+    let i ← i.toNat?
+    match st.reg with
+    | .labs l p => pure { st with reg := .labs { l with labels := l.labels.eraseIdx i } p }
+    | .toks ts => pure { st with reg := .toks (ts.eraseIdx i) }
+  | "r" :: rest =>
+    -- the argument may itself contain ':' (routes, relay, vivc)
+    let arg := ":".intercalate rest
+    match st.reg with
+    | .labs l p => do
+      let ns ← parseListOf unhex arg
+      pure { st with reg := .labs { l with labels := ns } p }
+    | .toks _ => some { st with reg := .toks (canonToks kind (toksOfArg kind arg)) }
+  | _ => none
 
 def stepV4Acc (op : String) (args : List String) : Option String :=
   match op, args with
@@ -173,7 +340,8 @@ def stepV4Acc (op : String) (args : List String) : Option String :=
       | "1" => some (base.update code (some v))
       | "2" => some (base.update code none)
       | _ => none
-    pure ("ok " ++ render o d)
+    let r := render o d
+    pure (if r == "panic" then "panic" else "ok " ++ r)
   | "v4setget", [ctor, arg, dflt] => do
     let (_, acc, toBytes) ← constructors.find? (fun e => e.1 == ctor)
     let (code, render) ← findAcc acc
@@ -183,6 +351,20 @@ def stepV4Acc (op : String) (args : List String) : Option String :=
       | .ok raw => s!"ok raw={hexOpt raw} get={render (GOpts.empty.update code raw) d}"
       | .err => "err"
       | .panic => "panic")
+  | "v4hist", ctor :: present :: h :: dflt :: steps => do
+    let (_, acc, toBytes) ← constructors.find? (fun e => e.1 == ctor)
+    let (code, render) ← findAcc acc
+    let v ← unhex h
+    let d ← dflt.toInt?
+    let o ← match present with
+      | "0" => some GOpts.empty
+      | "1" => some (GOpts.empty.update code (some v))
+      | "2" => some (GOpts.empty.update code none)
+      | _ => none
+    let kind := histKind ctor
+    let init : HState := { o := o, reg := if kind == "labels" then .labs Label.Labels.new [] else .toks [], outs := [] }
+    let st ← steps.foldlM (fun st s => if st.panicked then some st else histStep kind code render toBytes d st s) init
+    pure (if st.panicked || st.outs.contains "panic" then "panic" else "ok " ++ " | ".intercalate st.outs)
   | _, _ => none
 
 end Dhcp.Driver
